@@ -77,7 +77,67 @@ def struct_cast(fields_c, ptr="this"):
     return "((struct{%s}*)%s)" % (fields_c, ptr)
 
 
-INC_ANON = "void*vptr;void*bs;unsigned long m;struct{void**d;unsigned long n;unsigned long cap;}*cs;unsigned long n;void*vs;_Bool needsScaling;"
+INC_ANON = "void*vptr;void*bs;unsigned long m;"
+THIS_M = "((struct{%s}__attribute__((packed))*)this)->m" % INC_ANON
+
+
+REPLAY_SRC = r'''
+// Native replay for C01 scan/addConstraint obligations: drives the REAL libvpsc (rebuilt from the working tree)
+// into the class of states the failed obligation speaks about and checks the property on normal return:
+// every constraint is flagged unsatisfiable or satisfied by the final positions to 1e-6.
+#include "libvpsc/solve_VPSC.h"
+#include "libvpsc/variable.h"
+#include "libvpsc/constraint.h"
+#include <cstdio>
+#include <vector>
+using namespace vpsc;
+static int bad = 0;
+static void check(const char *name, Constraints &cs) {
+  for (size_t i = 0; i < cs.size(); ++i) {
+    Constraint *c = cs[i];
+    double s = c->right->scale * c->right->finalPosition - c->gap - c->left->scale * c->left->finalPosition;
+    if (!c->unsatisfiable && !(s >= -1e-6)) {
+      printf("%s: constraint %zu (var%d + %g <= var%d) returned unflagged with slack %g at final positions %g, %g\\n",
+             name, i, c->left->id, c->gap, c->right->id, s, c->left->finalPosition, c->right->finalPosition);
+      bad++;
+    }
+  }
+}
+template <class SOLVER> static void stale_active(const char *name, bool viaAdd) {
+  Variables vs; Constraints cs;
+  vs.push_back(new Variable(0, 0.0)); vs.push_back(new Variable(1, 0.0)); vs.push_back(new Variable(2, 10.0));
+  cs.push_back(new Constraint(vs[0], vs[2], 1.0));
+  Constraint *k = new Constraint(vs[0], vs[1], 5.0);
+  try {
+    if (viaAdd) {
+      IncSolver s(vs, cs); s.solve();
+      k->active = true;            // a constraint object that has been active in an earlier solver
+      cs.push_back(k); s.addConstraint(k); s.solve();
+    } else {
+      cs.push_back(k);
+      SOLVER s(vs, cs);
+      k->active = true;            // stale flag left by the (unverified) merge/split machinery
+      s.satisfy();
+    }
+    check(name, cs);
+  } catch (...) { printf("%s: exception (abnormal return: property not engaged)\\n", name); }
+}
+int main() {
+  stale_active<IncSolver>("IncSolver::satisfy with a stale active flag", false);
+  stale_active<IncSolver>("addConstraint of a previously active constraint, then solve", true);
+  stale_active<Solver>("Solver::satisfy with a stale active flag", false);
+  if (bad) { printf("REPRODUCED: %d constraint(s) neither satisfied nor reported\\n", bad); return 1; }
+  printf("not reproduced by the replay scenarios\\n"); return 0;
+}
+'''
+
+
+def replay_scan(job, obl, inputs, workdir):
+    lib = build_lib("libvpsc", workdir)
+    rc, out = native_run(REPLAY_SRC, workdir, "replay_vpsc", extra=["-I", COLA], libs=[lib])
+    if rc is None:
+        return False, out
+    return rc == 1, out
 
 
 def jobs(tier):
@@ -139,23 +199,120 @@ def jobs(tier):
     # IncSolver::satisfy: tail from `bs->cleanup();`
     t = fragment_tail(S["incsatisfy"], r'bs->cleanup\(\);', "IncSolver::satisfy [tail from bs->cleanup()]")
     ttext = subst(t, [(r'throw \(char \*\) s\.str\(\)\.c_str\(\);', '{ verif_thrown = 1; return false; }', 1)])
-    inv = ("i <= {S}->m && (verif_K_idx < i ==> !(verif_Kslack < -1e-10))").replace("{S}", struct_cast(INC_ANON))
-    if os.environ.get("WITH_TAIL"): js.append(Job("incsatisfy_tail", "U", spec, "h_incsatisfy_tail",
+    def scan_loop(sym, imap):
+        return loops_file([loop_contract(sym, 0,
+                                         "i <= %s && (verif_K_idx < i ==> !(verif_Kslack < -1e-10))" % THIS_M,
+                                         ", ".join(k for k in imap if k != "this"), "%s - i" % THIS_M, imap)])
+    js.append(Job("incsatisfy_tail", "U", spec, "h_incsatisfy_tail", replay=replay_scan,
                   cxx=tail_tu("IncSolver::verif_incsatisfy_tail", "bool", "    Constraint* v = nullptr;", ttext,
-                              'extern "C" { size_t verif_K_idx; bool w_incsatisfy_tail(void *s, size_t K) { verif_K_idx = K; '
-                              'return ((vpsc::IncSolver *)s)->verif_incsatisfy_tail(); } }\n'),
+                              'extern "C" bool w_incsatisfy_tail(void *s, size_t K) { '
+                              'return ((vpsc::IncSolver *)s)->verif_incsatisfy_tail(); }\n'),
                   enforce="w_incsatisfy_tail", replace=["w_slack", "w_blocks_cleanup", "w_copyResult"],
                   defines=["JOB_incsatisfy_tail", "CALLEES_GHOST"], slices=[S["incsatisfy"], t],
-                  loops=None, no_pointer_check=True,
+                  loops=scan_loop("vpsc::IncSolver::verif_incsatisfy_tail(this)",
+                                  {"i": "1::1::i", "v": "1::v", "activeConstraints": "1::activeConstraints", "this": "this"}),
+                  no_pointer_check=True,
                   domain="every solver state, every m in [1,10^6], ghost constraint index K < m",
-                  expect=[r'postcondition', r'loop_invariant_base', r'loop_invariant_step']))
+                  expect=[r'postcondition', r'loop_invariant_base', r'loop_invariant_step', r'loop_decreases']))
+    # Solver::satisfy: tail from `bs->cleanup();`  (the prefix's local list is deleted in the tail: dropped)
+    t2 = fragment_tail(S["satisfy"], r'bs->cleanup\(\);', "Solver::satisfy [tail from bs->cleanup()]")
+    t2text = subst(t2, [(r'throw UnsatisfiedConstraint\(\*cs\[i\]\);', '{ verif_thrown = 1; return false; }', 1),
+                        (r'delete vList;', '/* delete vList; (local of the dropped prefix) */', 1)])
+    js.append(Job("satisfy_tail", "U", spec, "h_satisfy_tail", replay=replay_scan,
+                  cxx=tail_tu("Solver::verif_satisfy_tail", "bool", "", t2text,
+                              'extern "C" bool w_satisfy_tail(void *s, size_t K) { return ((vpsc::Solver *)s)->verif_satisfy_tail(); }\n'),
+                  enforce="w_satisfy_tail", replace=["w_slack", "w_blocks_cleanup", "w_copyResult"],
+                  defines=["JOB_satisfy_tail", "CALLEES_GHOST"], slices=[S["satisfy"], t2],
+                  loops=scan_loop("vpsc::Solver::verif_satisfy_tail(this)",
+                                  {"i": "1::1::i", "activeConstraints": "1::activeConstraints", "this": "this"}),
+                  no_pointer_check=True,
+                  domain="every solver state, every m in [1,10^6], ghost constraint index K < m",
+                  expect=[r'postcondition', r'loop_invariant_base', r'loop_invariant_step', r'loop_decreases']))
+    # Solver::refine: tail = the final scan loop
+    t3 = fragment_tail(S["refine"], r'for\(unsigned i=0;i<m;i\+\+\) \{\s*if\(cs\[i\]->slack\(\) < ZERO_UPPERBOUND\)', "Solver::refine [tail: final scan]")
+    # the COLA_ASSERT inside the throwing branch restates the branch condition negated: it is the code's claim that
+    # the branch is never reached (C01 completeness, undecided); reaching it is an abnormal exit like the throw
+    t3text = subst(t3, [(r'COLA_ASSERT\(cs\[i\]->slack\(\)>ZERO_UPPERBOUND\);', '{ verif_thrown = 1; return; } /* assertion = abnormal exit */', 1),
+                        (r'throw UnsatisfiedConstraint\(\*cs\[i\]\);', '{ verif_thrown = 1; return; }', 1)])
+    js.append(Job("refine_tail", "U", spec, "h_refine_tail", replay=replay_scan,
+                  cxx=tail_tu("Solver::verif_refine_tail", "void", "", t3text,
+                              'extern "C" void w_refine_tail(void *s, size_t K) { ((vpsc::Solver *)s)->verif_refine_tail(); }\n'),
+                  enforce="w_refine_tail", replace=["w_slack"],
+                  defines=["JOB_refine_tail", "CALLEES_GHOST"], slices=[S["refine"], t3],
+                  loops=scan_loop("vpsc::Solver::verif_refine_tail(this)", {"i": "1::1::i", "this": "this"}),
+                  no_pointer_check=True,
+                  domain="every solver state, every m in [1,10^6], ghost constraint index K < m",
+                  expect=[r'postcondition', r'loop_invariant_base', r'loop_invariant_step', r'loop_decreases']))
+    # ---- solve() drivers: satisfy/refine/copyResult/cost/size replaced by their contracts
+    drv_filled = fill(pre, SHIM_POSITION, SHIM_UPOSITION, SHIM_SLACK)
+    def drv_tu(extra_shims, sl, wrapper):
+        return (base + EXTERN + drv_filled + S["using"].text + "\nnamespace vpsc {\n" + callee_shims + cr_shim + extra_shims +
+                sl.text + "\n}\n" + wrapper)
+    inc_sym = "vpsc::IncSolver::solve(this)"
+    js.append(Job("incsolve", "U", spec, "h_incsolve",
+                  cxx=drv_tu("bool IncSolver::satisfy() { return w_satisfy((void *)this); }\n", S["incsolve"],
+                             'extern "C" bool w_incsolve(void *s) { return ((vpsc::IncSolver *)s)->solve(); }\n'),
+                  enforce="w_incsolve", replace=["w_satisfy", "w_copyResult", "w_blocks_cost", "w_blocks_size"],
+                  defines=["JOB_incsolve"], slices=[S["incsolve"]],
+                  loops=loops_file([loop_contract(inc_sym, 0, "!verif_thrown ==> (!(verif_Kslack < -1e-10) && verif_final_ok)",
+                                                  "lastcost, cost, verif_Kslack, verif_final_ok, verif_thrown", None,
+                                                  {"lastcost": "1::lastcost", "cost": "1::cost"})]),
+                  domain="every solver state; termination of the cost loop not claimed",
+                  expect=[r'w_incsolve\.postcondition', r'loop_invariant_base', r'loop_invariant_step']))
+    js.append(Job("solve", "U", spec, "h_solve",
+                  cxx=drv_tu("bool Solver::satisfy() { return w_satisfy((void *)this); }\nvoid Solver::refine() { w_refine((void *)this); }\n",
+                             S["solve"], 'extern "C" bool w_solve(void *s) { return ((vpsc::Solver *)s)->solve(); }\n'),
+                  enforce="w_solve", replace=["w_satisfy", "w_refine", "w_copyResult", "w_blocks_size"],
+                  defines=["JOB_solve"], slices=[S["solve"]], domain="every solver state",
+                  expect=[r'w_solve\.postcondition']))
+    # ---- copyResult: loop body fragment (unbounded, one arbitrary element) + whole loop (bounded)
+    hdr, body = fragment_loop(S["copyResult"], r'for\(Variables::const_iterator i=vs\.begin\(\);i!=vs\.end\(\);\+\+i\)',
+                              "Solver::copyResult [loop body]")
+    body_cxx = (base + EXTERN + fill(pre, SHIM_POSITION, SHIM_UPOSITION, SHIM_SLACK) + "namespace vpsc {\n"
+                "static void verif_copyResult_body(Variables::const_iterator i)\n" + body.text + "\n}\n"
+                'extern "C" void w_copyResult_body(void *slot) { vpsc::verif_copyResult_body((vpsc::Variable *const *)slot); }\n')
+    js.append(Job("copyResult_body", "U", spec, "h_copyResult_body", cxx=body_cxx, enforce="w_copyResult_body",
+                  replace=["w_position"], defines=["JOB_copyResult_body"], slices=[S["copyResult"], body],
+                  domain="one arbitrary valid variable, every position value that is a number",
+                  expect=[r'postcondition', r'assigns', r'assertion']))
+    nmax = 4 if tier == "quick" else 6
+    loop_cxx = (base + real_filled + "namespace vpsc {\n" + S["copyResult"].text + "\n}\n"
+                'extern "C" void w_copyResult(void *s) { ((vpsc::Solver *)s)->copyResult(); }\n')
+    js.append(Job("copyResult_loop", "B", spec, "h_copyResult_loop", cxx=loop_cxx, defines=["JOB_copyResult_loop", "NMAX=%d" % nmax],
+                  unwind=nmax + 2, bound="n <= %d variables (unwind %d, unwinding assertions on)" % (nmax, nmax + 2),
+                  slices=[S["copyResult"], S["position"]], domain="n <= %d distinct variables, integer-valued positions, scale 1" % nmax,
+                  expect=[r'h_copyResult_loop\.assertion', r'unwind'], timeout=600))
+    # ---- addConstraint
+    add_cxx = (base + EXTERN + fill(pre, SHIM_POSITION, SHIM_UPOSITION, SHIM_SLACK) + "namespace vpsc {\n" + S["addConstraint"].text + "\n}\n"
+               'extern "C" void w_addConstraint(void *s, void *c) { ((vpsc::IncSolver *)s)->addConstraint((vpsc::Constraint *)c); }\n')
+    js.append(Job("addConstraint", "U", spec, "h_addConstraint", replay=replay_scan, cxx=add_cxx, enforce="w_addConstraint",
+                  defines=["JOB_addConstraint"], slices=[S["addConstraint"]],
+                  domain="every solver/constraint state; stub vectors with spare capacity (no reallocation model)",
+                  expect=[r'postcondition', r'assigns']))
     return js
 
 
 LEVEL = "proof"
 TRUSTED = [
     "cbmc/goto-cc/goto-instrument 6.11.0 and the MiniSat back end",
-    "stub std::vector / ostringstream models (stubs/)",
+    "stub std::vector / ostringstream models (stubs/); exception unwinding modelled as 'set verif_thrown and return' (throw expressions dropped)",
+    "prelude/vpsc.h (field order/types cross-checked against the real headers on every run; C mirrors cross-checked against CBMC's layout by job mirror_layout)",
+    "ghost-cell reading: verif_Kslack stands for the value slack() returns for the ghost constraint K in the current state; callee contracts that change "
+    "solver state list it in assigns (havoc), read-only callees do not -- the assignment of callees to the two groups is by inspection "
+    "(Blocks::cleanup, satisfy, refine change state; copyResult writes only finalPosition; Blocks::cost/size read only)",
+    "composition on paper: slack contract (definition of slack over position()) + scan postcondition (for every K, not (slack(K) < -1e-10)) + copyResult "
+    "(finalPosition == position()) => every unflagged constraint has right.scale*right.final - gap - left.scale*left.final >= -1e-10 on normal return",
+    "the paper step from 'copyResult loop body for one arbitrary element' + 'whole loop for n <= 4' to all n (DESIGN 2.9)",
+    "validity/distinctness of constraint-array elements other than the ghost one (scan jobs run with --no-pointer-check; reads through other elements yield arbitrary values)",
+    "slack_exact: machine arithmetic treated as mathematical (double retyped long long, overflow-checked)",
 ]
-ASSUMPTIONS = []
-EXPLANATION = "C01 chain under contract"
+ASSUMPTIONS = [
+    "caller duty of IncSolver::addConstraint: the constraint is also appended to the vector the solver's cs reference aliases (both call sites in libcola/colafd.cpp push first)",
+    "Solver construction establishes m <= cs.size() and needsScaling iff some variable scale != 1 (constructor not under contract)",
+    "NOT decided (residue): completeness (a feasible system is never flagged/thrown on; cyclic ones are flagged), finiteness (a NaN slack passes the scan), "
+    "tightness of active constraints after Block::merge, histories beyond single calls, termination of IncSolver::solve's cost loop",
+]
+EXPLANATION = ("Soundness-on-normal-return chain of the VPSC solvers under contract: Constraint::slack equals the separation's slack; the final scans of "
+               "IncSolver::satisfy, Solver::satisfy and Solver::refine (tail fragments, loop contracts, any m) leave no constraint with slack < -1e-10 on "
+               "normal return from EVERY state the merge/split machinery could produce; solve()/IncSolver::solve() keep that up to their return and copy the "
+               "positions last; addConstraint adds an inactive constraint and nothing else.")
